@@ -7,3 +7,5 @@ import JaxVerif.Properties.C05
 #print axioms JV.C05_callee_fresh
 #print axioms JV.C05_generated_good
 #print axioms JV.C05_facts_matter
+#print axioms JV.C05_source_wrappers
+#print axioms JV.C05_source_pop_whatever
